@@ -118,7 +118,8 @@ Record robs := mkObs {
   b_jobs : list job;            (* API server before *)
   b_now : Z;
   b_creates : list (Z * Z);     (* (name, schedule time) of successful creates *)
-  b_deletes : list Z;           (* names of Delete calls *)
+  b_deletes : list (Z * bool);  (* Delete calls: name, and whether the controller had just
+                                   fetched that job (the Replace path does, removeOldestJobs does not) *)
   b_active_after : list jref;   (* in-memory status.active after *)
 }.
 
@@ -128,8 +129,11 @@ Definition count_phase (p : phase) (jobs : list job) : Z :=
                                      | OwnThis, PhFailed, PhFailed => true
                                      | _, _, _ => false end) jobs)).
 
+Definition hist_deletes (o : robs) : list Z :=
+  map fst (filter (fun d => negb (snd d)) (b_deletes o)).
+
 Definition deleted_of (p : phase) (o : robs) : Z :=
-  count_phase p (filter (fun j => mem (j_name j) (b_deletes o)) (b_jobs o)).
+  count_phase p (filter (fun j => mem (j_name j) (hist_deletes o)) (b_jobs o)).
 
 Definition within_limit (lim : option Z) (p : phase) (o : robs) : bool :=
   match lim with
@@ -149,7 +153,7 @@ Definition law_reconcile (tbl : list Z) (o : robs) : bool :=
     law_choice tbl (c_created sp) (b_last o) (c_deadline sp) (b_now o) (Some t) &&
     (nm =? Z.quot (t / sec) 60) &&
     match b_last o with Some l => l <? t | None => true end &&
-    (negb (is_some (find_job (b_jobs o) nm)) || mem nm (b_deletes o))) (b_creates o) &&
+    (negb (is_some (find_job (b_jobs o) nm)) || mem nm (map fst (b_deletes o)))) (b_creates o) &&
   (* Forbid: a start only when no referenced run is still unfinished *)
   match c_policy sp, b_creates o with
   | Forbid, (nm, _) :: _ =>
@@ -161,16 +165,20 @@ Definition law_reconcile (tbl : list Z) (o : robs) : bool :=
   end &&
   (* deletions: finished runs of this CronJob beyond the history limits, or -
      under Replace, and only together with a start attempt - the active runs *)
-  forallb (fun d =>
-    match find_job (b_jobs o) d with
+  forallb (fun d : Z * bool =>
+    let '(nm, fetched) := d in
+    match find_job (b_jobs o) nm with
     | Some j =>
-      match j_owner j, j_phase j with
-      | OwnThis, PhCompleted => true
-      | OwnThis, PhFailed => true
-      | _, _ => match c_policy sp with
-                | Replace => existsb (fun r => r_name r =? d) (b_active o) && negb (c_suspend sp)
-                | _ => false end
-      end
+      if fetched then
+        match c_policy sp with
+        | Replace => existsb (fun r => r_name r =? nm) (b_active o) && negb (c_suspend sp)
+        | _ => false end
+      else
+        match j_owner j, j_phase j with
+        | OwnThis, PhCompleted => true
+        | OwnThis, PhFailed => true
+        | _, _ => false
+        end
     | None => false
     end) (b_deletes o) &&
   within_limit (c_succ_limit sp) PhCompleted o && within_limit (c_fail_limit sp) PhFailed o.
